@@ -125,6 +125,10 @@ func (in *c16Inst) tables() string {
 		}
 		return "ended"
 	}
+	return core.Safe("LockManager.sharedLockTable/exclusiveLockTable", func() string { return in.tablesRaw(name) })
+}
+
+func (in *c16Inst) tablesRaw(name func(int64) string) string {
 	var ents []string
 	sh := core.Field(in.lm, "sharedLockTable")
 	for it := sh.MapRange(); it.Next(); {
